@@ -116,6 +116,29 @@ def verifier_replay(ck, gen, tag):
     ck.extra_cov['verifier_replay_predicted_ok'] = ok
 
 
+def tool_vectors(ck, tools, tag):
+    """The repository's special-purpose hardware-test generators (mod_test_generator: modulo addressing of one multiply form over
+    every offset / step mode / step / modulo; step2_test_generator: the +-2 steps under every modulo value) write TestCase files
+    like the main generator does.  Their vectors go both ways: impl -> spec (isa_rec genfile + IsaTrace with the generator
+    clause: no abort, accesses inside the compared windows) and spec -> impl (verifier_replay: predicted by TvReplay, judged by
+    the repository's test_verifier)."""
+    ck.build('isa_rec', *tools)
+    for t in tools:
+        gen = os.path.join(ck.work, '%s_%s.bin' % (tag, t))
+        p = vlib.sh('%s %s' % (ck.bin(t), gen), timeout=600)
+        if p.returncode != 0 or not os.path.exists(gen) or os.path.getsize(gen) % 4312:
+            raise vlib.Infra('%s did not write a TestCase file:\n%s' % (t, p.stdout[-1000:]))
+        shards = list(range(0, 16, ck.pick(8, 1)))
+        files = [os.path.join(ck.work, '%s_%s_%02d.ndjson' % (tag, t, i)) for i in shards]
+        ck.run_jobs(['%s --mode genfile:%s:%d/16 --out %s' % (ck.bin('isa_rec'), gen, i, f) for i, f in zip(shards, files)], timeout=900)
+        ck.validate_traces('IsaTrace', 'Trace_Isa.cfg', files, timeout=2400, sig_prefix='hwvector')
+        ck.extra_cov['%s_vectors_validated' % t] = sum(sum(1 for _ in open(f)) for f in files)
+        verifier_replay(ck, gen, '%s_%s' % (tag, t))
+        ck.extra_cov['%s_replayed' % t] = ck.extra_cov.pop('verifier_replay_cases')
+        ck.extra_cov.pop('verifier_replay_predicted_ok', None)
+        os.remove(gen)
+
+
 def generator_clause(ck, parts=None, tag='gen', replay=False):
     """The project's own hardware-test generator (GenerateTestCasesToFile, about 82k vectors, 4 per enabled opcode), loaded the
     way the project's verifier loads them: IsaTrace additionally requires no abort, pc advance = decoded length, no second
